@@ -72,7 +72,7 @@ def all_names():
 
 
 @st.composite
-def cases(draw):
+def cases(draw, prelude: bool = False):
     now = draw(st.one_of(st.integers(0, 2 * 10**9), st.just(1700000000)))
     leeway = draw(st.sampled_from([0, 0, 1, 60, 3600, 17]))
     names = draw(st.lists(st.sampled_from(all_names()), unique=True, min_size=0, max_size=6))
@@ -115,7 +115,7 @@ def cases(draw):
             else:
                 c2[n] = draw(st.one_of(strv, st.none(), anyv)) if n not in ("exp", "nbf", "iat") else time_value(draw(st.sampled_from(OFFSETS)), now, leeway, False, 0.0)
         more.append(c2)
-    return {"claims": claims, "options": options, "now": now, "leeway": leeway, "implicit_now": implicit_now, "tv": tv, "more": more}
+    return {"claims": claims, "options": options, "now": now, "leeway": leeway, "implicit_now": implicit_now, "tv": tv, "more": more, "prelude": prelude}
 
 
 # ------------------------------------------------------------------ the oracle
@@ -229,6 +229,13 @@ def run_case(case) -> dict:
     import joserfc.rfc7519.registry as regmod
     classes = {MissingClaimError: "missing", InvalidClaimError: "invalid", ExpiredTokenError: "expired", InvalidTokenError: "not_yet_valid"}
     options, now, leeway = case["options"], case["now"], case["leeway"]
+    if case.get("prelude"):
+        # another part of the application validated claims with the generic registry (no time rules) before
+        from joserfc.rfc7519.registry import ClaimsRegistry
+        try:
+            ClaimsRegistry(sub={"essential": True}).validate({"sub": "someone", "exp": 1})
+        except Exception:
+            pass
     sequence = [_mat(c) for c in [case["claims"]] + list(case.get("more", []))]
     opts = copy.deepcopy(options)
     real_time = regmod.time
@@ -330,6 +337,12 @@ def run_shard(ctx, spec):
                                             "leeway": leeway, "implicit_now": implicit, "tv": {name: [off, as_float, frac]}}
                                     _account(ctx, case, run_case(case))
         return
+
+    def body_first(case):
+        # forked before this process has validated anything: the generic ClaimsRegistry is the first registry class the child uses
+        from harness.fork import in_child
+        _account(ctx, case, in_child(lambda: run_case(case)))
+    drive(ctx, "prelude-first", cases(prelude=True), body_first, 120 if ctx.tier == "quick" else 1500)
 
     def body(case):
         _account(ctx, case, run_case(case))
